@@ -19,6 +19,12 @@ CORPUS = [
     ("(seq (r int) (d (of (i 1) (i 2)) (seqof int)))", "(seq (i 5) (of))"),                   # DEFAULT of constructed type: empty value, non-empty default
     ("(seq (r int) (d (seq (i 9)) (tag i c 1 (seq (o int)))))", "(seq (i 5) (seq absent))"),
     ("(seq (r int) (d (of (i 1) (i 2)) (seqof int)))", "(seq (i 5) (of (i 1) (i 2)))"),
+    # SET OF whose greatest member encoding is shorter than two others that differ only beyond its length (members under
+    # different tags): the pad width is the greatest LENGTH, and padding never truncates
+    ("(setof (choice (r int) (r (str 4))))", "(of (ch 0 (i 65537)) (ch 0 (i 65536)) (ch 1 (s ff)))"),
+    ("(setof (choice (r int) (r (str 4))))", "(of (ch 1 (s ff)) (ch 0 (i 16777217)) (ch 0 (i 16777216)) (ch 0 (i 1)))"),
+    ("(setof (seq (r int) (o int)))", "(of (seq (i 4) (i 1)) (seq (i 4) (i 0)) (seq (i 5) absent))"),
+    ("(setof int)", "(of (i 1) (i 1) (i 2))"),                                                # repeated members are kept
 ]
 
 
@@ -283,6 +289,19 @@ def run(rep, tier, seed):
                 case = engine.Case(('seq', [('r', None, ('tag', mode, cls, num, ('int',)))]), ('seq', [('i', 5)]))
                 rep.case(case.canon, nontrivial=True)
                 check_case(rep, drv, case)
+    # SET OF stress: members under different tags and of different lengths sharing long prefixes, in random arrival order
+    ct = sexp_types.ty_of_sexp(gen.parse_sexps('(setof (choice (r int) (r (str 4)) (r (tag i c 0 (str 4))) (r (seq (r int) (o int)))))')[0])
+    for _ in range(40 if tier == 'quick' else 1500):
+        base_n = rng.choice([65536, 16777216, 256, 1 << 40])
+        pool = [('ch', 0, ('i', base_n + rng.randrange(3))) for _ in range(3)] + \
+               [('ch', 1, ('s', bytes([rng.choice([0xff, 0x80, 0x01])] * rng.randrange(1, 4)))) for _ in range(2)] + \
+               [('ch', 2, ('s', bytes([rng.randrange(256)]) * rng.randrange(0, 3)))] + \
+               [('ch', 3, ('seq', [('i', 4), rng.choice([('absent',), ('i', rng.randrange(2))])])) for _ in range(2)]
+        members = [rng.choice(pool) for _ in range(rng.randrange(2, 7))]
+        case = engine.Case(ct, ('of', members))
+        rep.case('setof-stress ' + case.canon, nontrivial=True)
+        rep.count('setof-stress')
+        check_case(rep, drv, case, rng)
     for case in engine.gen_cases(rng, n, max_depth=3, allow_any=True):
         if not engine.representable(case):
             continue
